@@ -6,6 +6,7 @@ import Casm.Model.CharCounter
 import Casm.Model.FileNav
 import Casm.Model.Driver
 import Casm.Model.Assemble
+import Casm.Model.Listing
 /-! casm-model: answers the line protocol from the Lean model's executable definitions. -/
 open Casm
 
@@ -291,6 +292,44 @@ def step (line : String) : String :=
         s!"ok {showBits r.bits} {showSpans r.spans} iters={r.iters} syms={syms}"
       | .error msgs => s!"err {msgs.headD "?"}"
     | _, _, _ => "bad-op"
+  | "lst" :: kind :: p1 :: p2 :: bitsF :: spansF :: filesF :: _ =>
+    -- lst <annotated|tcgame|addrspan> <base> <group> <bits|-> <off:size:addr:file:start:end,...|-> <namehex=contenthex,...|->
+    let files : List (List Char × List Char) := (listField filesF).filterMap fun f =>
+      match f.splitOn "=" with
+      | [n, c] => some (unhexText n, if c == "-" then [] else unhexText c)
+      | _ => none
+    let bits : Bits := if bitsF == "-" then [] else bitsF.toList.map (· == '1')
+    let spans : List LSpan := (listField spansF).filterMap fun sp =>
+      match sp.splitOn ":" with
+      | [o, sz, a, fi, st, en] =>
+        let (fname, ftext) := files.getD (fi.toNat?.getD 0) ([], [])
+        let st := st.toNat?.getD 0
+        let en := en.toNat?.getD 0
+        let (ls, cs) := lineColAtIndex ftext st
+        let (le, ce) := lineColAtIndex ftext en
+        some { offset := o.toNat?, size := sz.toNat?.getD 0, addr := a.toInt?.getD 0,
+               excerpt := (getExcerpt ftext st en).getD "<excerpt-panic>".toList, file := fname, loc := some (ls, cs, le, ce) }
+      | _ => none
+    let base := p1.toNat?.getD 16
+    let group := p2.toNat?.getD 2
+    match kind with
+    | "annotated" => hexOfChars (formatAnnotated base group bits spans)
+    | "tcgame" => hexOfChars (formatTcgame base group bits spans)
+    | "addrspan" => hexOfChars (formatAddrspan spans)
+    | _ => "bad-op"
+  | "lsy" :: kind :: rowsF :: _ =>
+    -- lsy <symbols|mesen> <namehex:c|l:value:(-|addrstart/outp|addrstart/n),...|->
+    let rows : List SymRow := (listField rowsF).filterMap fun r =>
+      match r.splitOn ":" with
+      | [n, k, v, b] =>
+        let bank : Option (Int × Option Nat) := if b == "-" then none else
+          match b.splitOn "/" with
+          | [a0, o] => some (a0.toInt?.getD 0, o.toNat?)
+          | _ => none
+        some ⟨unhexText n, k == "c", v.toInt?.getD 0, bank⟩
+      | _ => none
+    let t := if kind == "symbols" then formatSymbols rows else formatMesen rows
+    if t.isEmpty then "-" else hexOfChars t
   | "mdiff" :: "asm" :: fields =>
     match parseAsmFields fields with
     | some (opts, files, roots) =>
